@@ -2,8 +2,10 @@ package main
 
 import (
 	"context"
+	"encoding/json"
 	"flag"
 	"fmt"
+	"github.com/aws/aws-sdk-go/aws/awserr"
 	"sort"
 	"strings"
 	"time"
@@ -21,6 +23,7 @@ type kvHandle struct {
 	name string
 	db   *kv.DB
 	ro   bool
+	cl   *fakes3.Client
 }
 
 type kvCase struct {
@@ -83,11 +86,12 @@ func (c *kvCase) open(ro bool, perm []int) (*kvHandle, error) {
 	defer func() { kv.VerifPermute = nil }()
 	c.nextT++
 	when := time.Unix(0, 1_000_000_000+c.nextT)
-	db, err := kv.Open(ctxBG, c.store.Client(fmt.Sprintf("h%d", c.nextH)), c.cfg, kv.OpenOptions{ReadOnly: ro}, when)
+	cl := c.store.Client(fmt.Sprintf("h%d", c.nextH))
+	db, err := kv.Open(ctxBG, cl, c.cfg, kv.OpenOptions{ReadOnly: ro}, when)
 	if err != nil {
 		return nil, err
 	}
-	h := &kvHandle{name: fmt.Sprintf("H%d", c.nextH), db: db, ro: ro}
+	h := &kvHandle{name: fmt.Sprintf("H%d", c.nextH), db: db, ro: ro, cl: cl}
 	c.nextH++
 	c.handles = append(c.handles, h)
 	if len(order) == 0 {
@@ -188,6 +192,26 @@ func (c *kvCase) diff(h, g *kvHandle, keys []string) bool {
 	return true
 }
 
+// danglingKV: "" when the stored version `name` exists and every node it reaches exists
+func danglingKV(store *fakes3.Store, name string) string {
+	b, ok := store.Get("p/root/current/" + name)
+	if !ok {
+		if b, ok = store.Get("p/root/merged/" + name); !ok {
+			return "version " + name + " is not stored"
+		}
+	}
+	var root struct{ Link *string }
+	if err := json.Unmarshal(b, &root); err != nil {
+		return "version " + name + " does not decode"
+	}
+	if root.Link != nil {
+		if _, ok := store.Get("p/node/" + *root.Link); !ok {
+			return "version " + name + " refers to the missing node " + *root.Link
+		}
+	}
+	return ""
+}
+
 func (c *kvCase) run(nops int) {
 	keys := []string{"a", "b", "c", "d", "e", "f", "g", "h"}[:2+c.r.Intn(6)]
 	defer func() {
@@ -228,10 +252,77 @@ func (c *kvCase) run(nops int) {
 			c.e.Op(fmt.Sprintf("kv rmtomb %s %d", h.name, cut), errStr(err))
 			c.st.Count("rmtomb")
 		case op < 12 && !h.ro: // commit
+			if h.cl != nil && h.db.IsDirty() && c.r.Chance(1, 4) {
+				// a commit attempt with one storage request failing. Nothing is emitted for the model: a failed
+				// commit changes nothing, and the retry below must then be a real commit (F39)
+				kind := gen.Pick(c.r, []string{"/root/current/", "/root/current/", "/node/", "/root/merged/"})
+				hit := false
+				h.cl.Fault = func(idx, midx int, op, key string) error {
+					if !hit && op == "PUT" && strings.Contains(key, kind) {
+						hit = true
+						return awserr.New("InternalError", "injected fault", nil)
+					}
+					return nil
+				}
+				name, err := h.db.Commit(ctxBG)
+				h.cl.Fault = nil
+				c.st.Count("commit_with_fault" + strings.TrimSuffix(kind, "/"))
+				switch {
+				case hit && kind == "/root/merged/":
+					// retiring the parents is best-effort: the commit itself stands
+					if err != nil || name == nil {
+						c.fail(fmt.Sprintf("commit whose retire PUT failed: %v", err))
+						return
+					}
+					l := c.label(*name)
+					c.e.Op(fmt.Sprintf("kv src %s %s", h.name, l), "ok")
+					c.e.Op(fmt.Sprintf("kv clone %s ver:%s", h.name, l), "ok")
+					continue
+				case hit && err == nil:
+					c.fail(fmt.Sprintf("Commit reports success although its PUT under %s failed", kind))
+					return
+				case hit && kind == "/node/":
+					// the handle may refuse further commits, but it must never acknowledge one it did not store
+					if n2, e2 := h.db.Commit(ctxBG); e2 != nil {
+						if len(c.handles) == 1 {
+							c.st.Count("commit_refused_after_flush_fault")
+							h.db.Cancel()
+							return
+						}
+						for j, g := range c.handles {
+							if g == h {
+								c.handles = append(c.handles[:j], c.handles[j+1:]...)
+								break
+							}
+						}
+						h.db.Cancel()
+						c.st.Count("commit_refused_after_flush_fault")
+						continue
+					} else if n2 != nil {
+						if d := danglingKV(c.store, *n2); d != "" {
+							c.fail("a commit retried after a failed node PUT was acknowledged, but " + d)
+							return
+						}
+						l := c.label(*n2)
+						c.e.Op(fmt.Sprintf("kv src %s %s", h.name, l), "ok")
+						c.e.Op(fmt.Sprintf("kv clone %s ver:%s", h.name, l), "ok")
+						continue
+					}
+				}
+				// version PUT failed (or the fault was not reached): fall through to the ordinary commit = the retry
+			}
 			name, err := h.db.Commit(ctxBG)
 			if err != nil {
 				c.fail("commit: " + err.Error())
 				return
+			}
+			if name != nil {
+				if _, ok1 := c.store.Get("p/root/current/" + *name); !ok1 {
+					if _, ok2 := c.store.Get("p/root/merged/" + *name); !ok2 {
+						c.fail("Commit acknowledged version " + *name + " but no such version object is stored")
+						return
+					}
+				}
 			}
 			if name != nil {
 				l := c.label(*name)
